@@ -38,6 +38,18 @@ Theorem C12_documented_regex : forall (n : N) (rest : text),
     /\ get_cap c 0 = Some (0, 6 + tlen (dec n) + 1).
 Proof. exact documented_regex_token. Qed.
 
+(* The two readers agree on EVERY message, not only on inserted tokens: whenever Breadlog treats a
+   message as referenced with number n (pre-existing references with leading zeros included),
+   the documented regex matches it at offset 0 and its group 1, parsed as a u32, is the same n. *)
+Theorem C12_documented_regex_agrees : forall (s : text) (n : N),
+  extract_reference the_params s = Some n ->
+  exists c se,
+    captures re_documented s = Some c
+    /\ get_cap c 1 = Some se
+    /\ parse_u32 (cap_text s se) = Some n
+    /\ exists e, get_cap c 0 = Some (0, e).
+Proof. exact documented_regex_agrees. Qed.
+
 (* decimal printing and u32 parsing are inverse on the whole ID range *)
 Theorem C12_dec_parse : forall n : N, n <= 4294967295 -> parse_u32 (dec n) = Some n.
 Proof. exact parse_u32_dec. Qed.
@@ -48,4 +60,12 @@ Example C12_nonvacuous :
   /\ extract_reference the_params [91; 114; 101; 102; 58; 32; 52; 50; 57; 52; 57; 54; 55; 50; 57; 54; 93] = None
   /\ extract_reference the_params [32; 91; 114; 101; 102; 58; 32; 52; 50; 93] = None
   /\ extract_reference the_params [91; 114; 101; 102; 58; 32; 1635; 93] = None.
+Proof. vm_compute. repeat split. Qed.
+
+(* non-vacuity of the agreement theorem: a pre-existing reference with leading zeros *)
+Example C12_agrees_nonvacuous :
+  extract_reference the_params [91; 114; 101; 102; 58; 32; 48; 48; 55; 93; 120] = Some 7
+  /\ match captures re_documented [91; 114; 101; 102; 58; 32; 48; 48; 55; 93; 120] with
+     | Some c => get_cap c 1 = Some (6, 9) /\ get_cap c 0 = Some (0, 10)
+     | None => False end.
 Proof. vm_compute. repeat split. Qed.
